@@ -2,9 +2,11 @@ import GridVerif.Model.Proto
 import GridVerif.Model.Elem
 import GridVerif.Model.Poisson
 import GridVerif.Gen.Poisson
+import GridVerif.Gen.PoissonRobust
+import GridVerif.Model.PoissonRobust
 
 namespace GridVerif.Driver.C16
-open GridVerif.Proto GridVerif.Poisson GridVerif.Gen.Poisson
+open GridVerif.Proto GridVerif.Poisson GridVerif.Gen.Poisson GridVerif.PoissonRobust GridVerif.Gen.PoissonRobust
 
 def pBool : String → Option Bool
   | "0" => some false
@@ -15,6 +17,109 @@ def sBool (b : Bool) : String := if b then "1" else "0"
 
 def sBc (bc : List (Nat × Nat × Float)) : String :=
   String.intercalate " " (toString bc.length :: bc.map fun t => s!"{t.1} {t.2.1} {sFloat t.2.2}")
+
+/-- parse `k` groups `center(vec) coeffs(vec)` -/
+def pSteps : Nat → List String → Option (List (List Float × List Float) × List String)
+  | 0, rest => some ([], rest)
+  | k + 1, rest => do
+    let (c, t1) ← pVec pFloat rest
+    let (x, t2) ← pVec pFloat t1
+    let (more, t3) ← pSteps k t2
+    pure ((c, x) :: more, t3)
+
+/-- Round-3 ops: the statement-wise generated text of `robust_poisson.py` and the additions to the
+generated text of `poisson.py`. -/
+def handle2 : List String → Option String
+  | ["C16.consts2"] =>
+    some (String.intercalate " " ["ok",
+      sFloat (ivpPublicIntervalDefault : Float × Float).1, sFloat (ivpPublicIntervalDefault : Float × Float).2,
+      sBool bvpPublicIncludeOriginDefault, sFloat (bvpPublicRemoveLargeDefault : Float),
+      sFloat (molWrapWeight : Float), sFloat (molWrapAtnum : Float), sBool molWrapStore, sBool molRequiresStore,
+      sFloat (bvpY00Angles : Float × Float).1, sFloat (bvpY00Angles : Float × Float).2,
+      sFloat (ivpY00Angles : Float × Float).1, sFloat (ivpY00Angles : Float × Float).2,
+      toString bvpDomainIndex, toString bvpWhereIndex,
+      sFloat (defaultBasisStart : Float), sFloat (defaultBasisStop : Float), toString defaultBasisNum,
+      toString fitEmptyCentersShape.1, toString fitEmptyCentersShape.2, toString robustFitInitShape.1, toString robustFitInitShape.2,
+      sBool coreZipStrict, sBool robustZipStrict, toString coreSumAxis, toString fitSumAxis, toString totalTileCols,
+      sBool robustSplit2Dflt, sBool robustCopiesDensity, sBool fitCopiesResidual])
+  | ["C16.domain", d] => do
+    let d ← pFloat d
+    if bvpDomainRejects d then pure "value-error" else pure "ok"
+  | ["C16.typeguard", opt, kind] =>
+    match typeGuardAccepts bvpTypeGuards opt kind with
+    | some true => some "ok"
+    | some false => some "type-error"
+    | none => some "ok no-guard"
+  | ["C16.splineidx", n] => do
+    let n ← pNat n
+    pure ("ok " ++ sNats (splineIndexSeq bvpSplineStart bvpSplineStep n) ++ " " ++ sNats (splineIndexSeq ivpSplineStart ivpSplineStep n))
+  | ["C16.harmdeg", lmax] => do
+    let lmax ← pNat lmax
+    pure s!"ok {bvpHarmDegree lmax} {ivpHarmDegree lmax}"
+  | ["C16.wrap", size] => do
+    let size ← pNat size
+    pure ("ok " ++ sFloats (wrapWeights (molWrapWeight : Float) size))
+  | "C16.core2" :: rest => do
+    let (p, t1) ← pVec pFloat rest
+    let (c, t2) ← pVec pFloat t1
+    let (cs, t3) ← pVec pFloat t2
+    let (as, t4) ← pVec pFloat t3
+    if t4 ≠ [] ∨ p.length ≠ c.length then none else
+    match coreDensityAt p c cs as with
+    | some v => pure ("ok " ++ sFloat v ++ " " ++ sFloat (coreRSq p c))
+    | none => pure "value-error"
+  | "C16.fitmatrix" :: rest => do
+    let (c, t1) ← pVec pFloat rest
+    let (as, t2) ← pVec pFloat t1
+    let (pts, t3) ← pMat pFloat t2
+    if t3 ≠ [] then none else
+    pure ("ok " ++ sMat sFloat (fitMatrix pts c as))
+  | "C16.fit" :: rest => do
+    let (as, t1) ← pVec pFloat rest
+    let (pts, t2) ← pMat pFloat t1
+    let (res, t3) ← pVec pFloat t2
+    match t3 with
+    | [] => none
+    | k :: t4 => do
+      let k ← pNat k
+      let (steps, t5) ← pSteps k t4
+      if t5 ≠ [] ∨ res.length ≠ pts.length then none else
+      if steps.any (fun s => s.2.length ≠ as.length) then pure "value-error" else
+      let kept := fitKept as steps
+      let trace := (List.zip pts res).map fun pr => fitResidualTrace as steps pr.1 pr.2
+      pure (String.intercalate " " ["ok", sFloats (kept.map (·.1)), sFloats (kept.map (·.2.1)), sMat sFloat (kept.map (·.2.2)),
+        sMat sFloat trace, sFloats ((List.zip pts res).map fun pr => fittedDensityAt kept pr.1)])
+  | ["C16.defaultbasis"] => some ("ok " ++ sFloats (defaultBasis : List Float))
+  | ["C16.shape", ndim, len, npts] => do
+    let ndim ← pNat ndim
+    let len ← pNat len
+    let npts ← pNat npts
+    if robustShapeRejects ndim len npts then pure "value-error" else pure "ok"
+  | ["C16.basis", ndim, size] => do
+    let ndim ← pNat ndim
+    let size ← pNat size
+    if robustBasisRejects ndim size then pure "value-error" else pure "ok"
+  | "C16.alphas" :: rest => do
+    let (as, t1) ← pVec pFloat rest
+    if t1 ≠ [] then none else
+    if as.any (fun a => decide (robustAlphaRejects a)) then pure "value-error" else pure "ok"
+  | ["C16.tpoints", ndim, cols] => do
+    let ndim ← pNat ndim
+    let cols ← pNat cols
+    if totalPointsRejects ndim cols then pure "value-error" else pure "ok"
+  | "C16.resid2" :: rho :: rest => do
+    let rho ← pFloat rho
+    let (cores, t1) ← pVec pFloat rest
+    if t1 ≠ [] then none else
+    pure ("ok " ++ sFloat (robustResidualAt rho cores))
+  | "C16.total2" :: nfit :: vf :: vr :: rest => do
+    let nfit ← pNat nfit
+    let vf ← pFloat vf
+    let vr ← pFloat vr
+    let (pots, t1) ← pVec pFloat rest
+    if t1 ≠ [] then none else
+    pure ("ok " ++ sFloat (totalAt pots nfit vf vr))
+  | _ => none
 
 /-- Line-protocol handler of property C16: `C16.<op> args…` ↦ one answer line
 (`none` = malformed, answered `bad-op`). -/
@@ -140,6 +245,6 @@ def handle : List String → Option String
     match lapSum vs with
     | some v => pure ("ok " ++ sFloat v)
     | none => pure "index-error"
-  | _ => none
+  | args => handle2 args
 
 end GridVerif.Driver.C16
